@@ -509,7 +509,7 @@ VARIANTS = (["ossl-plain", "botan-plain"], ["ossl-plain", "botan-plain"])
 def main(tier):
     rep = Report("C20", tier, "translation_validation")
     quick = tier == "quick"
-    deadline = time.time() + (170 if quick else 1700)
+    deadline = time.time() + (600 if quick else 1700)
     base_root = P.scratch_root()
     progs_run = steps = 0
     found, samples = {}, []
